@@ -10,7 +10,6 @@ sys.path.insert(0, HERE)
 
 ALL = ["C%02d" % i for i in range(1, 21)]
 NOT_APPLICABLE = {
-    "C13": "answers are set-valued functions of an arbitrary defs grid (runtime values); no shape of the code is a necessary condition beyond termination (C09) and lock discipline (C14), so static analysis does not decide it (DESIGN.md section 4)",
 }
 
 
